@@ -33,7 +33,7 @@
 use self::errors::*;
 use crate::DmntkError;
 use std::convert::TryFrom;
-use uriparse::{RelativeReference, URI};
+use uriparse::URIReference;
 
 /// Optional reference to an element.
 pub type OptHRef = Option<HRef>;
@@ -60,14 +60,14 @@ impl TryFrom<&str> for HRef {
   type Error = DmntkError;
   /// Tries to convert string into [HRef].
   fn try_from(value: &str) -> Result<Self, Self::Error> {
-    if let Ok(relative_reference) = RelativeReference::try_from(value) {
-      let s = relative_reference.to_string();
-      return Ok(Self(if s.starts_with('#') { s.strip_prefix('#').unwrap().to_string() } else { s }));
+    // the conversions to relative reference and to URI of `uriparse` panic for some texts that are no references
+    // (like ":" or "1:"), that is why the text is converted to a reference of any kind, which reports an error
+    let uri_reference = URIReference::try_from(value).map_err(|_| err_invalid_reference(value))?;
+    let s = uri_reference.to_string();
+    if uri_reference.is_relative_reference() && s.starts_with('#') {
+      return Ok(Self(s.strip_prefix('#').unwrap().to_string()));
     }
-    if let Ok(uri) = URI::try_from(value) {
-      return Ok(Self(uri.to_string()));
-    }
-    Err(err_invalid_reference(value))
+    Ok(Self(s))
   }
 }
 
